@@ -34,7 +34,7 @@ META = dict(
     level_text='every placement of a concurrent shutdown() at the environment call-outs of the control connection\'s connect sequence, and every order of session shutdown / node-up event / cluster shutdown within the bounds, is explored (solver-forked flags) through the real methods; per path the obligation is that every connection opened is closed, that nothing new is opened or scheduled after shutdown, and that shutdown is idempotent and ordered',
     level_note='stand-in Cluster/Session objects expose exactly what the real methods read; pre-emption at environment call-outs (blocking factory, connection requests, metadata refresh) and, in job control-race, a Cluster.shutdown() by another thread at any acquire/release of the two locks of the control connection (with every host of the plan refusing as one of the cases, so that the retry-scheduling branch is reached); not inside lock-free regions of driver code; pools themselves are C12',
     technique='symbolic execution (sx, solver-forked scheduler flags) of the real cassandra.cluster.ControlConnection._reconnect/_try_connect/_set_new_connection/shutdown, Session.shutdown/submit/add_or_renew_pool and Cluster.shutdown over scripted connections and recorders',
-    bounds=dict(quick='control connection: 1..2 hosts in the plan (first may fail to connect), shutdown possible at each of 5 call-outs of the connect sequence or not at all, control-connection or cluster shutdown; session: shutdown before/after a node-up event, 2 hosts; cluster: 0..2 sessions, shutdown twice',
+    bounds=dict(quick='control connection: 1..2 hosts in the plan (first may fail to connect), shutdown possible at each of 5 call-outs of the connect sequence or not at all, control-connection or cluster shutdown; session: shutdown before/after a node-up event, 2 hosts, shutdown at a sync point of the pool-creation task, two overlapping pool-creation tasks for one host; cluster: 0..2 sessions, shutdown twice',
                 thorough='same, plus control-race2: two Cluster.shutdown() calls by other threads at sync points (concurrent shutdowns)'),
     assumptions=['another thread calls shutdown() only while the connecting thread is inside an environment call (factory, request round trip, metadata refresh)'],
     stubs=['connection_factory: scripted control connections (register_watchers / wait_for_responses / close recorded)', 'Cluster and Session stand-ins; executor runs submitted tasks inline or records them'],
@@ -226,7 +226,8 @@ def h_session(V):
     orig = cc.HostConnection
     cc.HostConnection = _Pool
     try:
-        order = V.pick('order', ['event-then-shutdown', 'shutdown-then-event', 'shutdown-while-task-queued', 'shutdown-at-a-sync-point-of-the-task'])
+        order = V.pick('order', ['event-then-shutdown', 'shutdown-then-event', 'shutdown-while-task-queued', 'shutdown-at-a-sync-point-of-the-task',
+                                 'two-pool-tasks-for-one-host'])
         def run_tasks():
             while tasks:
                 fn, a, k = tasks.pop(0)
@@ -251,6 +252,22 @@ def h_session(V):
             s.add_or_renew_pool(hosts[0], False)     # queued on the executor
             s.shutdown()
             run_tasks()
+        elif order == 'two-pool-tasks-for-one-host':
+            # two pool-creation tasks for the same host are queued (a node-up event and update_created_pools after another
+            # host came up); the executor has more than one thread: the second task runs at a sync point of the first
+            s.add_or_renew_pool(hosts[0], False)
+            s.add_or_renew_pool(hosts[0], False)
+
+            def second_task(*a):
+                fn, a_, k_ = tasks.pop(0)
+                fn(*a_, **k_)
+            pre = kit.Preempter(V, ('run_add_or_renew_pool',), second_task, enabled=lambda: bool(tasks))
+            s._lock = kit.SchedLock('session._lock', pre)
+            run_tasks()
+            live = [p for p in s._opened if not p.is_shutdown]
+            V.check(len(live) == 1 and s._pools.get(hosts[0]) is live[0], 'session:one-live-pool-per-host-and-it-is-the-registered-one',
+                    note='%d live pools for the host' % len(live))
+            s.shutdown()
         else:
             # another thread calls shutdown() at an acquire/release of the session lock inside the pool-creation task
             pre = kit.Preempter(V, ('run_add_or_renew_pool', 'add_or_renew_pool'), lambda *a: s.shutdown())
